@@ -29,6 +29,11 @@ class Invalid(Exception):
     """The documentation does not admit this request (must be rejected)."""
 
 
+class Unspecified(Exception):
+    """Request outside the documentation whose outcome is harmless either
+    way (neither a rejection nor a particular result is demanded)."""
+
+
 class Axis(object):
     __slots__ = ('c', 'lo', 'hi')
 
@@ -305,6 +310,10 @@ def select_axis(ax, item):
         if item.step is not None and (isinstance(item.step, bool) or
                                       not isinstance(item.step, int)):
             raise Invalid('bad step')
+        if item.step is not None and item.step < 0 and \
+                len(list(range(n))[item]) == 1:
+            # a negative step that selects one cell: nothing is reversed
+            raise Unspecified('negative step selecting a single cell')
         if item.step is not None and item.step <= 0:
             raise Invalid('negative or zero steps are not supported')
         cells = list(range(n))[item]
